@@ -169,6 +169,11 @@ def sample_messages(ctx):
         f = msggen.frame(key, p)
         out.append(("parse", f, mode))
         out.append(("payload", key, mode, p))
+        # payloads that do not fit the definition exactly (a trailing fragment of a group, a missing tail): diagnostics
+        # on such frames are side effects too
+        for q in (p + bytes(rng.randrange(1, 6)), p + b"\x01" * 17, p[:-1] if p else p):
+            if len(q) != len(p) and len(q) < 65536:
+                out.append(("parse", msggen.frame(key, q), mode))
         base = {"type": key[2]} if len(key) == 3 else {}
         nm = sweep.names_of(d, True)
         kw = dict(base)
